@@ -292,7 +292,7 @@ func (g *gen) do(o Op) error {
 	}
 	if o.Kind == "insert" {
 		for _, e := range o.Kvts {
-			if len(g.known) < 400 {
+			if len(g.known) < 400 && len(e.K) > 0 {
 				g.known = append(g.known, e.K)
 			}
 		}
@@ -338,12 +338,15 @@ func genCase(r *vk.Run, nOps int, profile string) error {
 		var o Op
 		switch {
 		case p < 30:
-			o = g.insertOp(advCase && rng.Intn(4) == 0 && rollbackAt < 0 && false)
+			o = g.insertOp(false)
 			if advCase && rng.Intn(3) == 0 {
 				o = g.insertOp(true)
-				// tree-level rejections belong to the rollback profile only
+				// a batch the tree itself rejects (same key, decreasing ts): outside the rollback
+				// profile it is issued right after a flush, when nothing can be rolled back
 				if n := len(o.Kvts); n >= 2 && o.Kvts[n-1].T != 0 && o.Kvts[n-1].T < o.Kvts[n-2].T && o.Kvts[n-1].K == o.Kvts[n-2].K {
-					o.Kvts = o.Kvts[:n-2]
+					if err := g.do(Op{Kind: "flush", Pct: 0, Synced: false}); err != nil {
+						return err
+					}
 				}
 			}
 		case p < 34:
